@@ -16,7 +16,7 @@ fn abs_le_i9f23(x: I9F23, n: i32) -> bool { let b = x.to_bits(); b >= -(n << 23)
 #[cfg(kani)]
 #[kani::proof]
 #[kani::unwind(70)]
-fn sin_i9f23() {
+pub fn sin_i9f23() {
     let x = I9F23::from_bits(kani::any());
     kani::assume(abs_le_i9f23(x, 200));
     hk::reset_ticks();
@@ -28,7 +28,7 @@ fn sin_i9f23() {
 #[cfg(kani)]
 #[kani::proof]
 #[kani::unwind(70)]
-fn cos_i9f23() {
+pub fn cos_i9f23() {
     let x = I9F23::from_bits(kani::any());
     kani::assume(abs_le_i9f23(x, 200));
     hk::reset_ticks();
@@ -41,7 +41,7 @@ fn cos_i9f23() {
 #[cfg(kani)]
 #[kani::proof]
 #[kani::unwind(70)]
-fn tan_i9f23() {
+pub fn tan_i9f23() {
     let b: i32 = kani::any();
     kani::assume(b >= -(100 << 23) && b <= (100 << 23));
     let k: i32 = kani::any();
@@ -60,7 +60,7 @@ fn tan_i9f23() {
 #[cfg(kani)]
 #[kani::proof]
 #[kani::unwind(34)]
-fn exp_i9f23() {
+pub fn exp_i9f23() {
     let x = I9F23::from_bits(kani::any());
     hk::reset_ticks();
     let r: Result<I9F23, ()> = tr::exp(x);
@@ -70,7 +70,7 @@ fn exp_i9f23() {
 #[cfg(kani)]
 #[kani::proof]
 #[kani::unwind(34)]
-fn sqrt_i9f23() {
+pub fn sqrt_i9f23() {
     let x = I9F23::from_bits(kani::any());
     hk::reset_ticks();
     let r: Result<I9F23, &'static str> = tr::sqrt(x);
@@ -82,7 +82,7 @@ fn sqrt_i9f23() {
 #[cfg(kani)]
 #[kani::proof]
 #[kani::unwind(34)]
-fn log2_i9f23() {
+pub fn log2_i9f23() {
     let x = I9F23::from_bits(kani::any());
     hk::reset_ticks();
     let r: Result<I9F23, ()> = tr::log2(x);
@@ -92,7 +92,7 @@ fn log2_i9f23() {
 #[cfg(kani)]
 #[kani::proof]
 #[kani::unwind(34)]
-fn ln_i9f23() {
+pub fn ln_i9f23() {
     let x = I9F23::from_bits(kani::any());
     hk::reset_ticks();
     let r: Result<I9F23, ()> = tr::ln(x);
@@ -102,7 +102,7 @@ fn ln_i9f23() {
 #[cfg(kani)]
 #[kani::proof]
 #[kani::unwind(34)]
-fn sqrt_u9f23() {
+pub fn sqrt_u9f23() {
     let x = U9F23::from_bits(kani::any());
     hk::reset_ticks();
     let r: Result<U9F23, &'static str> = tr::sqrt(x);
@@ -113,7 +113,7 @@ fn sqrt_u9f23() {
 #[cfg(kani)]
 #[kani::proof]
 #[kani::unwind(70)]
-fn sin_i32f32() {
+pub fn sin_i32f32() {
     let b: i64 = kani::any();
     kani::assume(b >= -(200i64 << 32) && b <= (200i64 << 32));
     hk::reset_ticks();
@@ -124,7 +124,7 @@ fn sin_i32f32() {
 #[cfg(kani)]
 #[kani::proof]
 #[kani::unwind(70)]
-fn cos_i32f32() {
+pub fn cos_i32f32() {
     let b: i64 = kani::any();
     kani::assume(b >= -(200i64 << 32) && b <= (200i64 << 32));
     hk::reset_ticks();
@@ -134,7 +134,7 @@ fn cos_i32f32() {
 #[cfg(kani)]
 #[kani::proof]
 #[kani::unwind(70)]
-fn sin_i64f64() {
+pub fn sin_i64f64() {
     let b: i128 = kani::any();
     kani::assume(b >= -(200i128 << 64) && b <= (200i128 << 64));
     hk::reset_ticks();
@@ -144,7 +144,7 @@ fn sin_i64f64() {
 #[cfg(kani)]
 #[kani::proof]
 #[kani::unwind(66)]
-fn exp_i32f32() {
+pub fn exp_i32f32() {
     let x = I32F32::from_bits(kani::any());
     hk::reset_ticks();
     let _r: Result<I32F32, ()> = tr::exp(x);
